@@ -62,7 +62,19 @@ impl Property for C17 {
             Tier::Thorough => 30_000,
         }
     }
-    fn generate(&self, seed: u64, idx: u64, _tier: Tier) -> Scenario {
+    fn generate(&self, seed: u64, idx: u64, tier: Tier) -> Scenario {
+        // the size monitor also runs over the scenario families of other properties (searches on
+        // large stub networks, hostile traffic, probe mixes, deep tables)
+        if idx % 4 == 3 {
+            let sub = idx / 4;
+            return match sub % 4 {
+                0 => super::c02::C02.generate(seed, sub, tier),
+                1 => super::c03::C03.generate(seed, sub, tier),
+                2 => super::c05::C05.generate(seed, sub, tier),
+                _ => super::c09::C09.generate(seed, sub, tier),
+            };
+        }
+        let _ = tier;
         let mut rng = Rng::new(seed ^ 0xC17 ^ idx.wrapping_mul(0x9E37_79B9_7F4A_7C15));
         let mut sc = Scenario::new("c17");
         sc.entropy_seed = rng.next();
@@ -145,16 +157,19 @@ impl Property for C17 {
         if sc.param("peers") >= 500 {
             v.hit("store_full");
         }
+        if sc.family != "c17" {
+            v.hit("monitor_over_other_families");
+        }
         v.sample = json!({"peers_announced": sc.param("peers"), "stubs": sc.world.stubs.len(), "datagrams_sent_by_node": n_sent, "largest_datagram": max_len, "oversize": over.len()});
         v
     }
     fn rule(&self) -> &'static str {
-        "one real serving node with 0..160 stub contacts at chosen prefix depths; 0..520 valid announces for one info-hash (IPv4, IPv6 or mixed); get_peers and find_node probes with every want combination, both requester families, transaction ids of 0..32 bytes; plus the node's own bootstrap, refresh and announcing-search traffic; the length of every buffer passed to the socket is checked. non-trivial = the node sent more than two datagrams; distinct = distinct order digests"
+        "3 of 4 cases: one real serving node with 0..160 stub contacts at chosen prefix depths; 0..520 valid announces for one info-hash (IPv4, IPv6 or mixed); get_peers and find_node probes with every want combination, both requester families, transaction ids of 0..32 bytes; plus the node's own bootstrap, refresh and announcing-search traffic; the length of every buffer passed to the socket is checked; 1 of 4 cases: the same monitor over scenarios of the C02, C03, C05 and C09 families. non-trivial = the node sent more than two datagrams; distinct = distinct order digests"
     }
     fn assumptions(&self) -> Vec<&'static str> {
         vec!["known finding (open): a get_peers reply whose excess over 1500 bytes is accounted for by its values list is reported as KNOWN-FINDING, every other oversize datagram as VIOLATION"]
     }
     fn required_reach(&self) -> Vec<&'static str> {
-        vec!["datagram_over_1000_bytes", "store_full"]
+        vec!["datagram_over_1000_bytes", "store_full", "monitor_over_other_families"]
     }
 }
